@@ -516,6 +516,46 @@ func enumSites(repo string) {
 			})
 		}
 	}
+	// one level up: every mention, in fc, of a function of fc that itself enumerates a dictionary (a
+	// wrapper such as eqsItems hands the enumeration on to its caller)
+	wrappers := map[string]bool{}
+	for _, x := range sites {
+		if strings.HasPrefix(x.file, "fc/") && strings.HasPrefix(x.what, "dict.") {
+			wrappers[x.fn] = true
+		}
+	}
+	var callers []site
+	for _, path := range files {
+		rel, _ := filepath.Rel(repo, path)
+		if strings.HasSuffix(path, "_test.go") || !strings.HasPrefix(rel, "fc/") {
+			continue
+		}
+		_, f := parseFile(path)
+		for _, d := range f.Decls {
+			fd, ok := d.(*ast.FuncDecl)
+			if !ok || fd.Body == nil {
+				continue
+			}
+			seen := map[string]bool{}
+			ast.Inspect(fd.Body, func(n ast.Node) bool {
+				if id, ok := n.(*ast.Ident); ok && wrappers[id.Name] && id.Name != fd.Name.Name && !seen[id.Name] {
+					seen[id.Name] = true
+					callers = append(callers, site{rel, fd.Name.Name, id.Name})
+				}
+				return true
+			})
+		}
+	}
+	fmt.Println("/-- who uses the enumerating functions of fc: (file, function, enumerating function) -/")
+	fmt.Println("def enumCallers : List (String × String × String) := [")
+	for i, x := range callers {
+		sep := ","
+		if i == len(callers)-1 {
+			sep = ""
+		}
+		fmt.Printf("  (%s, %s, %s)%s\n", leanStr(x.file), leanStr(x.fn), leanStr(x.what), sep)
+	}
+	fmt.Println("]")
 	fmt.Println("/-- enumeration / non-determinism sites: (file, function, what) -/")
 	fmt.Println("def enumSites : List (String × String × String) := [")
 	for i, x := range sites {
